@@ -37,7 +37,7 @@ theorem forgive_node (F n : Nat) (hn : n < 256) : forgive F n = n := by
   have h2 : counter n = 0 := by unfold counter; omega
   have h3 : node n = n := by unfold node; omega
   rw [h1, h2, h3]
-  unfold pack durSecs durFrac; omega
+  split <;> (unfold pack durSecs durFrac; omega)
 
 /-- Acceptance on source 0 keeps `OnlySrc0`. -/
 theorem onlySrc0_tryUpdate (F : Nat) (s : OrSwot) (ts : Nat) (h : OnlySrc0 s) (maxs' : List Map) (safe' : Map)
